@@ -1729,7 +1729,7 @@ def _abstract_comprehension(ex, st, node, kind, g, it):
     """Comprehension over a collection of unknown length: the element expression is evaluated once on an
     arbitrary element (every exception any iteration can raise is raised on that path); the result is an
     abstract list.  Only for list/generator comprehensions without conditions."""
-    if kind not in ("list", "gen") or g.ifs:
+    if kind not in ("list", "gen") or len(g.ifs) > 1:
         raise U(f"comprehension over symbolic iterable {it!r}")
     d = st.deref(it)
     if isinstance(d, SV) and isinstance(d.sort, tuple) and d.sort[0] == "opt":
@@ -1757,6 +1757,19 @@ def _abstract_comprehension(ex, st, node, kind, g, it):
         st_e = st0.fork()
         st_e.assume(z3.And(j >= 0, j < sq.n))
         kinds = set()
+        if g.ifs:
+            # a filtering comprehension over a collection of unknown length: the condition is evaluated for an
+            # arbitrary element and put on the ghost trace (contracts state what selects an element:
+            # comp_filter_element() / comp_filter_condition()); the result is an abstract list
+            g0 = ast.comprehension(target=g.target, iter=g.iter, ifs=[], is_async=0)
+            for st1, c in _bind_and_eval(ex, st_e, frame, g0, g.ifs[0], sq.at(j)):
+                if isinstance(c, Exc):
+                    yield st1, c
+                    continue
+                t = ex.truthy(st1, c)
+                st0.trace.append(("comp-filter", node.lineno, sq.at(j), t if isinstance(t, SV) else SV("bool", z3.BoolVal(bool(t)))))
+            yield st0, Opaque("PyList")
+            continue
         if ex.feasible(st_e.pc):
             for st1, r in _bind_and_eval(ex, st_e, frame, g, node.elt, sq.at(j)):
                 if isinstance(r, Exc):
